@@ -1,3 +1,5 @@
 pub mod chars;
 pub mod canon;
 pub mod external;
+pub mod xmap;
+pub mod xjson;
